@@ -231,6 +231,68 @@ fn rosen_n(c: &Value, acc: &mut Acc) {
     }
 }
 
+/// One history of spec/PropStream.tla replayed through real proposal objects: every draw that the specification annotates with
+/// (seed, pos) must be `from + std * z`, z the pos-th block of StandardNormal draws of SmallRng::seed_from_u64(seed) -- whatever
+/// the object did before it was seeded (fresh, used, seeded before, cloned from a used object).
+fn stream<T>(c: &Value, acc: &mut Acc, ty: &str)
+where
+    T: Float + std::ops::AddAssign + std::fmt::Debug,
+    StandardNormal: Distribution<T>,
+    IsotropicGaussian<T>: Proposal<T, T> + Clone,
+{
+    let seed_of = |name: &str| -> u64 { match name { "a" => 0, "b" => u64::MAX, "c" => 0x9E37_79B9_7F4A_7C15, _ => 42 } };
+    let std = T::from(0.75).unwrap();
+    let from: Vec<T> = [0.5, -1.25, 3.0].iter().map(|v| T::from(*v).unwrap()).collect();
+    let d = from.len();
+    let mut objs: Vec<Option<IsotropicGaussian<T>>> = vec![Some(IsotropicGaussian::<T>::new(std))];
+    for (k, op) in c["hist"].as_array().unwrap().iter().enumerate() {
+        let i = op["o"].as_u64().unwrap() as usize - 1;
+        match op["op"].as_str().unwrap() {
+            "seed" => {
+                let o = objs[i].take().unwrap();
+                objs[i] = Some(o.set_seed(seed_of(op["seed"].as_str().unwrap())));
+            }
+            "clone" => {
+                let cl = objs[0].as_ref().unwrap().clone();
+                objs.push(Some(cl));
+            }
+            _ => {
+                let got = objs[i].as_mut().unwrap().sample(&from);
+                if got.len() != d {
+                    acc.cmp(c, "proposal stream: sample length", got.len() as f64, d as f64, 0.0);
+                    continue;
+                }
+                let sname = op["seed"].as_str().unwrap();
+                if sname == "os" {
+                    acc.cmp(c, "proposal stream: unseeded draw finite", if got.iter().all(|v| v.is_finite()) { 1.0 } else { 0.0 }, 1.0, 0.0);
+                    continue;
+                }
+                let pos = op["pos"].as_u64().unwrap() as usize;
+                // reference: a FRESH object seeded before its first draw, sampled pos + 1 times (how many generator outputs one
+                // sample() consumes is the implementation's business -- today d + 1: `sample_iter().zip(current)` pulls one
+                // more normal than it uses); the first draw is additionally tied to the generator the documentation names
+                let mut fresh = IsotropicGaussian::<T>::new(std).set_seed(seed_of(sname));
+                let mut want = fresh.sample(&from);
+                for _ in 0..pos {
+                    want = fresh.sample(&from);
+                }
+                for j in 0..d {
+                    let what = format!("proposal stream ({ty}): op {k} = draw {pos} after set_seed({sname}) on a used object differs from the same draw of a fresh seeded object, coordinate {j}");
+                    acc.cmp(c, &what, got[j].to_f64().unwrap(), want[j].to_f64().unwrap(), 0.0);
+                }
+                if pos == 0 {
+                    let mut rng = SmallRng::seed_from_u64(seed_of(sname));
+                    for j in 0..d {
+                        let z: T = StandardNormal.sample(&mut rng);
+                        let w = (from[j] + std * z).to_f64().unwrap();
+                        acc.cmp(c, &format!("proposal stream ({ty}): first draw after set_seed = from + std z"), got[j].to_f64().unwrap(), w, 1e-6 * (1.0 + w.abs()));
+                    }
+                }
+            }
+        }
+    }
+}
+
 pub fn replay(args: &[String]) {
     let cases = read_ndjson(&args[0]);
     let mut acc = Acc { evals: 0, bad: vec![] };
@@ -241,6 +303,7 @@ pub fn replay(args: &[String]) {
             "iso" => iso(c, &mut acc),
             "rosen2" => rosen2(c, &mut acc),
             "rosenN" => rosen_n(c, &mut acc),
+            "stream" => { stream::<f64>(c, &mut acc, "f64"); stream::<f32>(c, &mut acc, "f32") }
             k => tool_error(&format!("kind {k}")),
         });
         if let Err(e) = r {
